@@ -34,6 +34,7 @@ struct Out {
     std::vector<double> x;
     int levels = 0;
     std::string opdiff;                          // "" when the level-0 operator held by the solver == the scalar matrix
+    std::vector<double> pact;                    // action of the preconditioner on the right-hand side (scalar reference and hybrid path)
 };
 typedef Out (*Runner)(const Req &);
 struct Path { std::string name; int b; std::string btype; Runner run; };
